@@ -10,8 +10,8 @@ use serde_json::{json, Map, Value};
 use std::collections::{BTreeMap, BTreeSet, HashSet};
 use std::time::Instant;
 
-pub const L1_TIMEOUT_MS: u64 = 30_000;
-pub const L2_TIMEOUT_MS: u64 = 180_000;
+pub const L1_TIMEOUT_MS: u64 = 15_000;
+pub const L2_TIMEOUT_MS: u64 = 60_000;
 
 pub fn violation_key_of(o: &Outcome, job: &DJob) -> Option<(Value, String)> {
     match o {
@@ -39,7 +39,8 @@ pub fn violation_key_of(o: &Outcome, job: &DJob) -> Option<(Value, String)> {
             ))
         }
         Outcome::Timeout => Some((
-            json!({"class":"hang","file_kind":crate::engines::disk::kind_of(&job.file).as_str(),"cell":job.cell}),
+            // no panic site for a hang: group by the damaged attribute and the edit kind
+            json!({"class":"hang","attribute":job.cell.split('|').nth(2).unwrap_or(""),"edit":job.cell.split('|').nth(3).unwrap_or("")}),
             "no result within the watchdog limit".to_string(),
         )),
     }
